@@ -281,6 +281,8 @@ def flw1(ctx):
 # ---------------------------------------------------------------- FLW-2
 
 TRANSF = "asca::alias::Transformation"
+# temporaries of a literal `&[]` argument: a borrowed slice can only come from a parameter (checked), a Vec (checked) or the empty literal
+EMPTY_ALIAS_TEMPS = ("&[asca::alias::Transformation; 0]", "[asca::alias::Transformation; 0]", "&[asca::alias::Transformation]")
 
 
 def flw2(ctx):
@@ -455,13 +457,35 @@ def flw2(ctx):
                     r.report("FLW-2|%s|%s|origin" % (fpath, b.path), fn_loc(b, ln), b.path,
                              "%s is called with an alias list whose origin (deromanisers / romanisers) cannot be traced to parse_aliases" % fpath)
     # no alias in the rule-application call tree
-    tree = lib.reachable(["asca::apply_rule_groups", "asca::apply_rules_trace"])
+    # (a consumer called with the literal empty list from inside rule application is not followed: no alias can reach it that way)
+    consumers = {fpath: fb_.param_names.index(pname) for fpath, pname, _, _ in oblig for fb_ in [lib.body(fpath)] if fb_ is not None}
+    g = lib.callgraph
+    tree, stack = set(), ["asca::apply_rule_groups", "asca::apply_rules_trace"]
+    while stack:
+        f = stack.pop()
+        if f in tree:
+            continue
+        tree.add(f)
+        fb = lib.body(f)
+        empties = set()
+        if fb is not None and fb.hir and fb.kind != "closure":
+            per = {}
+            for callee, args, ln in all_calls(fb):
+                if callee in consumers and consumers[callee] < len(args):
+                    per.setdefault(callee, []).append(colour_arg(args[consumers[callee]], envs.get(f, {})))
+            for callee, cols_ in per.items():
+                if cols_ and all(c == "empty" for c in cols_):
+                    empties.add(callee)
+                    r.inst("%s calls %s with the empty alias list only" % (f, callee), fn_loc(fb), "accepted:empty list")
+        for c in g.get(f, ()):
+            if c not in tree and c not in empties:
+                stack.append(c)
     bad = []
     for p in sorted(tree):
         fb = lib.body(p)
         if fb is None or fb.in_test_mod():
             continue
-        if any(TRANSF in t for t in fb.param_tys) or any(TRANSF in (l.get("ty") or "") for l in fb.locals):
+        if any(TRANSF in t for t in fb.param_tys) or any(TRANSF in (l.get("ty") or "") and (l.get("ty") or "") not in EMPTY_ALIAS_TEMPS for l in fb.locals[len(fb.param_tys) + 1:]):
             bad.append(p)
     r.inst("no function reachable from apply_rule_groups / apply_rules_trace mentions Transformation (%d bodies)" % len([p for p in tree if lib.body(p)]),
            None, "ok" if not bad else "report")
